@@ -11,12 +11,12 @@ INLINE = set(TABLEAU_ACCESSORS) | {f"{CTAB}:CliffordTableau.__init__", f"{CTAB}:
 
 
 def _basis_holds(vals):
-    t, q = vals["T"], vals["q"]
-    n = t["n"]
-    if not (0 <= q < n):
-        return True
-    tab = t["table"]
-    return bool(tab[n:, q].any() or tab[:n, q].any())
+    """concrete inputs of remove_qubit / partial_trace are replayed only when they are VALID tableaux: [T-basis] (and with it the
+    `assert len(non_zero) > 0` of the real code) is a property of symplectic tableaux, which every intermediate tableau of a
+    partial trace then is as well"""
+    from pyvc.schema import is_symplectic_tableau
+
+    return all(is_symplectic_tableau(v) for v in vals.values() if isinstance(v, dict) and "table" in v)
 
 
 def shrink_grow_tasks(C, tier="quick"):
@@ -48,7 +48,8 @@ def shrink_grow_tasks(C, tier="quick"):
     for nq, keep in cases:
         for mode in ("probabilistic", 1):
             T.append(Task(R.PTRACE, C[R.PTRACE], [S.Clifford("T", nq), S.Const("keep", list(keep)), S.Const("dims", None),
-                                                  S.Const("mode", mode)], C, inline=INLINE,
+                                                  S.Const("mode", mode), S.Assume(z3.BoolVal(True), "valid-tableau", check=_basis_holds)],
+                          C, inline=INLINE,
                           label=f"partial_trace[n={nq},keep={list(keep)},{mode}]", timeout_ms=20000))
     return T
 
